@@ -40,6 +40,7 @@ WHAT = {
 }
 
 
+SEQ = bool(os.environ.get("C03_MAXPROC"))   # shared machine: same work, but the pipelines run one after the other (<= ~6 processes)
 DEV = bool(os.environ.get("C03_DEV"))      # development on a shared machine: at most ~4 processes at a time
 
 
@@ -59,17 +60,25 @@ def run_flat(ctx):
 
 # ------------------------------------------------------------------------------ (T) binding
 def bind_jobs(ctx):
-    nproc = ctx.pick(3, 6)
+    """Naming A (the family of PyBindMC): CPython executes every pair, pyscript a 1/8 sample (quick) or everything
+    (thorough).  Naming B (the complementary placement of the reserved parameter names, catch-alls named like
+    reserved keywords): one more job - quick: CPython and pyscript execute the same 1/8 sample; thorough: everything."""
+    nproc = ctx.pick(3, 5)
     nsig = len(B.sigs())
     jobs = []
     for k in range(nproc):
         sl = list(range(k, nsig, nproc))
         if DEV and os.environ.get("C03_SIGSTEP"):
             sl = sl[::int(os.environ["C03_SIGSTEP"])]           # triage only: a subsample of the signatures
-        jobs.append({"sigs": sl, "nreal": ctx.pick(1, 2),
+        jobs.append({"naming": "A", "sigs": sl, "nreal": ctx.pick(1, 2),
                      "py_mod": ctx.pick(8, 1), "py_rem": (ctx.seed + k) % ctx.pick(8, 1),
                      "shapes_slice": [k, nproc], "shapes_py_mod": ctx.pick(4, 1), "corrupt": 12,
                      "out": os.path.join(ctx.scratch, "bind_%d.json" % k)})
+    sl = list(range(nsig))
+    if DEV and os.environ.get("C03_SIGSTEP"):
+        sl = sl[::int(os.environ["C03_SIGSTEP"])]
+    jobs.append({"naming": "B", "sigs": sl, "nreal": 1, "py_mod": ctx.pick(8, 1), "py_rem": ctx.seed % ctx.pick(8, 1),
+                 "cpy_mod": ctx.pick(8, 0), "corrupt": 6, "out": os.path.join(ctx.scratch, "bind_B.json")})
     return jobs
 
 
@@ -81,12 +90,13 @@ def bind_pipeline(ctx):
     t0 = time.time()
     stats = run_workers("harness.drivers.c03_bind", "work_bind", bind_jobs(ctx), ctx.scratch, nproc=6)
     t1 = time.time()
-    results = parallel([(lambda st=st: accept_bind(ctx, st["out"], "bind")) for st in stats], max_workers=1 if DEV else 4)
+    results = parallel([(lambda st=st: accept_bind(ctx, st["out"], "bind")) for st in stats], max_workers=1 if (DEV or SEQ) else 4)
     return stats, results, (t1 - t0, time.time() - t1)
 
 
 def report_bind(ctx, stats, results):
     S_, C_ = B.sigs(), B.flat_calls()
+    pairs_A = 0
     tot = {"pairs": 0, "cpy_cases": 0, "pys_cases": 0, "nontrivial": 0, "pys_nontrivial": 0, "ok": 0, "typeerror": 0,
            "pys_same": 0, "pys_differ": 0}
     locus = {}
@@ -97,6 +107,8 @@ def report_bind(ctx, stats, results):
     for st, res in zip(stats, results):
         for k in tot:
             tot[k] += st[k]
+        if st["job"].get("naming", "A") == "A":
+            pairs_A += st["pairs"]
         for l, n in st["locus"].items():
             locus[l] = locus.get(l, 0) + n
         groups += st["groups"]
@@ -138,6 +150,7 @@ def report_bind(ctx, stats, results):
     ctx.cov["selftest_corruptions_rejected"] = ctx.cov.get("selftest_corruptions_rejected", 0) + ncorrupt
     ctx.cov["bind"] = dict(tot, signatures=len(S_), flat_calls=len(C_), written_shapes_universal=len(B.all_shapes()),
                            at_locus=locus, rejections=nrej)
+    tot["pairs_A"] = pairs_A
     return tot, nrej
 
 
@@ -162,7 +175,7 @@ def scope_pipeline(ctx):
     jobs = scope_jobs(ctx)
     stats = run_workers("harness.drivers.c03_scope", "work_scope", jobs, ctx.scratch, nproc=4)
     t1 = time.time()
-    results = parallel([(lambda st=st: accept_scope(ctx, st["out"])) for st in stats], max_workers=1 if DEV else 4)
+    results = parallel([(lambda st=st: accept_scope(ctx, st["out"])) for st in stats], max_workers=1 if (DEV or SEQ) else 4)
     return stats, results, (t1 - t0, time.time() - t1)
 
 
@@ -438,7 +451,8 @@ def main(ctx):
         partial(ctx, parts)
         return
     t0 = time.time()
-    outs = parallel([lambda: run_mc(ctx), lambda: run_flat(ctx), lambda: bind_pipeline(ctx), lambda: scope_pipeline(ctx)])
+    thunks = [lambda: run_mc(ctx), lambda: run_flat(ctx), lambda: bind_pipeline(ctx), lambda: scope_pipeline(ctx)]
+    outs = [t() for t in thunks] if SEQ else parallel(thunks)
     mc, flat, (bstats, bres, btime), (sstats, sres, stime) = outs
     # (M)
     if not mc.ok:
@@ -452,20 +466,24 @@ def main(ctx):
         raise MachineryFailure("PyBindMC explored %d states, expected %d pairs" % (mc.distinct, expected_pairs))
     if flat.ok and flat.distinct < len(B.all_shapes()):
         raise MachineryFailure("PyBindFlat explored %d states for %d shapes" % (flat.distinct, len(B.all_shapes())))
-    ctx.cov["witness_assumptions_checked"] = 9       # ASSUME in PyBindMC: members of the family exercising every clause
+    ctx.cov["witness_assumptions_checked"] = 11      # ASSUME in PyBindMC: members of the family exercising every clause
     ctx.cov["exhaustive"] = True
     # (T)
     btot, bnrej = report_bind(ctx, bstats, bres)
-    if btot["pairs"] != expected_pairs:
-        raise MachineryFailure("binding family incomplete: %d of %d pairs executed" % (btot["pairs"], expected_pairs))
+    if btot["pairs_A"] != expected_pairs:
+        raise MachineryFailure("binding family incomplete: %d of %d pairs executed" % (btot["pairs_A"], expected_pairs))
     stot, shapes, accepted = report_scope(ctx, sstats, sres)
     if stot["programs"] < 50 or stot["events"] < 500:
         raise MachineryFailure("vacuous scoping coverage: %s" % stot)
     ctx.cov["evaluations"] = btot["cpy_cases"] + btot["pys_cases"] + 2 * stot["programs"]
     ctx.cov["distinct_nontrivial"] = btot["pys_nontrivial"] + len(shapes)
     ctx.cov["rule"] = (
-        "binding: every (signature, flattened call) pair of the family (756 x 785) is executed under CPython in %d written "
-        "realisation(s) (explicit / *seq / **map) plus every written call shape against f(*va, **kw); pyscript executes %s; "
+        "binding: parameter names of every kind are drawn from plain names AND reserved trigger keywords (naming A: "
+        "po a,value / pk context,d / ko qos,g; naming B: the complementary placement, catch-alls named retain/topic), calls use "
+        "them plus an unknown name and the undeclared reserved trigger_type; every (signature, flattened call) pair of naming A "
+        "(756 x 785, the family of PyBindMC) is executed under CPython in %d written "
+        "realisation(s) (explicit / *seq / **map) plus every written call shape against f(*va, **kw); pyscript executes %s; naming B: "
+        "a 1/8 sample of the pairs under both interpreters (thorough: all); "
         "non-trivial = the signature has a parameter and the call an argument; distinct by (signature, written call). "
         "scoping: random programs (nested definitions to depth 4, global/nonlocal, closures in loops, bounded recursion, "
         "user decorators, classes, lambda/@pyscript_compile); non-trivial = at least one nested definition and one logged "
